@@ -27,6 +27,27 @@ pub assume_specification[ String::from_utf8_lossy ](v: &[u8]) -> (r: std::borrow
 pub broadcast axiom fn ax_fmt_req_all_cow_str<'a>()
     ensures #[trigger] vstd::std_specs::fmt::fmt_req_all::<std::borrow::Cow<'a, str>>();
 
+/// R11 shim for std's AtomicU8: identity of the atomic object, permission on stores, oracle for loads
+pub uninterp spec fn atomic_id(a: &std::sync::atomic::AtomicU8) -> int;
+pub uninterp spec fn store_ok(id: int, v: u8) -> bool;
+pub uninterp spec fn load_spec(id: int) -> u8;
+pub trait VAtomicU8 {
+    spec fn aid(&self) -> int;
+    fn vstore(&self, v: u8, o: std::sync::atomic::Ordering)
+        requires
+            store_ok(self.aid(), v), //@label AtomicU8::store.perm C13
+    ;
+    fn vload(&self, o: std::sync::atomic::Ordering) -> (r: u8)
+        ensures r == load_spec(self.aid());
+}
+impl VAtomicU8 for std::sync::atomic::AtomicU8 {
+    open spec fn aid(&self) -> int { atomic_id(self) }
+    #[verifier::external_body]
+    fn vstore(&self, v: u8, o: std::sync::atomic::Ordering) { unimplemented!() }
+    #[verifier::external_body]
+    fn vload(&self, o: std::sync::atomic::Ordering) -> (r: u8) { unimplemented!() }
+}
+
 pub mod util {
     use super::*;
     use super::deferred_now::DeferredNow;
@@ -157,6 +178,22 @@ pub mod multi_writer {
         //@   ret r
         //@   ens r == self.dup_out_spec()
         spec fn other_id(&self) -> int { self.o_other_writer->Some_0.wid() }
+        /// C13: the encoding stored is `dup as u8` (0 = None .. 6 = All; decoded by Duplicate::from)
+        pub open spec fn dup_code(d: Duplicate) -> u8 {
+            match d { Duplicate::None => 0, Duplicate::Error => 1, Duplicate::Warn => 2, Duplicate::Info => 3, Duplicate::Debug => 4, Duplicate::Trace => 5, Duplicate::All => 6 }
+        }
+        pub closed spec fn err_id(&self) -> int { atomic_id(&self.duplicate_stderr) }
+        pub closed spec fn out_id(&self) -> int { atomic_id(&self.duplicate_stdout) }
+    //@ fn src/primary_writer/multi_writer.rs impl MultiWriter / fn adapt_duplication_to_stderr
+    //@   props C13
+    //@   rule R11 1
+    //@   req[adapt_stderr.pre.distinct] self.err_id() != self.out_id()
+    //@   req[adapt_stderr.pre.perm] forall|id: int, v: u8| #[trigger] store_ok(id, v) <==> (id == self.err_id() && v == MultiWriter::dup_code(dup))
+    //@ fn src/primary_writer/multi_writer.rs impl MultiWriter / fn adapt_duplication_to_stdout
+    //@   props C13
+    //@   rule R11 1
+    //@   req[adapt_stdout.pre.distinct] self.err_id() != self.out_id()
+    //@   req[adapt_stdout.pre.perm] forall|id: int, v: u8| #[trigger] store_ok(id, v) <==> (id == self.out_id() && v == MultiWriter::dup_code(dup))
     }
     // R9: methods of `impl LogWriter for MultiWriter` emitted as inherent methods
     impl MultiWriter {
